@@ -446,8 +446,59 @@ class _Ctx:
         return None
 
     # ------------------------------------------------------------------ statements
+    @staticmethod
+    def _desugar_setdefault(s: ast.stmt) -> Optional[List[ast.stmt]]:
+        """`x = d.setdefault(k, v)` / `d.setdefault(k, v)` / `d.setdefault(k, v).m(...)` as the test-and-store it abbreviates:
+        `if k not in d: d[k] = v` followed by the statement with `d[k]` in place of the call (k and d free of effects)."""
+        def pure(e):
+            for n in ast.walk(e):
+                if isinstance(n, ast.Call) and not (isinstance(n.func, ast.Name) and n.func.id == 'type'):
+                    return False
+                if isinstance(n, (ast.NamedExpr, ast.Yield, ast.Await, ast.Lambda)):
+                    return False
+            return True
+
+        def is_sd(c):
+            return isinstance(c, ast.Call) and isinstance(c.func, ast.Attribute) and c.func.attr == 'setdefault' and len(c.args) == 2 \
+                and not c.keywords and pure(c.func.value) and pure(c.args[0])
+        call = None
+        if isinstance(s, ast.Assign) and is_sd(s.value):
+            call = s.value
+        elif isinstance(s, ast.Expr) and is_sd(s.value):
+            call = s.value
+        elif isinstance(s, ast.Expr) and isinstance(s.value, ast.Call) and isinstance(s.value.func, ast.Attribute) and is_sd(s.value.func.value):
+            call = s.value.func.value
+        if call is None:
+            return None
+        import copy
+        d, k, v = call.func.value, call.args[0], call.args[1]
+        test = ast.Compare(left=copy.deepcopy(k), ops=[ast.NotIn()], comparators=[copy.deepcopy(d)])
+        store = ast.Assign(targets=[ast.Subscript(value=copy.deepcopy(d), slice=copy.deepcopy(k), ctx=ast.Store())], value=v)
+        guard = ast.If(test=test, body=[store], orelse=[])
+        entry = ast.Subscript(value=copy.deepcopy(d), slice=copy.deepcopy(k), ctx=ast.Load())
+        out = [guard]
+        if isinstance(s, ast.Assign):
+            out.append(ast.Assign(targets=s.targets, value=entry))
+        elif isinstance(s.value, ast.Call) and s.value is not call:
+            out.append(ast.Expr(value=ast.Call(func=ast.Attribute(value=entry, attr=s.value.func.attr, ctx=ast.Load()), args=s.value.args,
+                                               keywords=s.value.keywords)))
+        for o in out:
+            ast.copy_location(o, s)
+            ast.fix_missing_locations(o)
+        return out
+
     def block(self, stmts: List[ast.stmt], states: List[State]) -> List[State]:
         for s in stmts:
+            ds = getattr(s, '_desugared', None)
+            if ds is None:
+                ds = self._desugar_setdefault(s) or False
+                try:
+                    s._desugared = ds
+                except Exception:
+                    pass
+            if ds:
+                states = self.block(ds, states)
+                continue
             live = [x for x in states if x.status == 'normal']
             done = [x for x in states if x.status != 'normal']
             if not live:
@@ -1314,9 +1365,30 @@ class _Ctx:
     def ex_JoinedStr(self, e, st):
         return Opaque('fstring@%d' % e.lineno)
 
+    def is_sentinel(self, t: Term) -> bool:
+        """t names a private marker object: a module-level `NAME = object()` (never stored in any container)."""
+        if isinstance(t, Sym) and '.' in t.name:
+            mn, _, nm = t.name.rpartition('.')
+            m = self.prog.modules.get(mn)
+            v = m.assigns.get(nm) if m is not None else None
+            return isinstance(v, ast.Call) and isinstance(v.func, ast.Name) and v.func.id == 'object' and not v.args and not v.keywords
+        return False
+
+    def _select(self, v: Term, st: State) -> Term:
+        """A conditional value read on a path that has already decided its condition is the selected arm."""
+        n = 0
+        while isinstance(v, IfT) and n < 4:
+            d = self.decide(st, v.cond) if self.opts.prune else None
+            if d is None:
+                break
+            v = v.a if d else v.b
+            n += 1
+        return v
+
     def ex_Name(self, e, st):
         if e.id in st.env:
-            return st.env[e.id]
+            v = st.env[e.id]
+            return self._select(v, st) if isinstance(v, IfT) else v
         r = self.prog.resolve_name(e.id, self.fn.module)
         if r is not None:
             k, o = r
@@ -1335,6 +1407,13 @@ class _Ctx:
                 v = m.assigns.get(name)
                 if isinstance(v, ast.Constant):
                     return self.ex_Constant(v, st)
+                if isinstance(v, ast.Tuple) and m is self.fn.module and len(list(ast.walk(v))) <= 200 and \
+                        all(isinstance(x, (ast.Tuple, ast.Constant, ast.Name, ast.Attribute, ast.Load, ast.UnaryOp, ast.USub)) for x in ast.walk(v)):
+                    # a module-level constant table of constants / functions / enum members
+                    try:
+                        return self.ev(v, State())
+                    except Exception:
+                        pass
                 return Sym(f"{m.name}.{name}")
         if e.id in ('True', 'False', 'None'):
             return Const({'True': True, 'False': False, 'None': None}[e.id])
@@ -1576,10 +1655,21 @@ class _Ctx:
             c = b
             if isinstance(c, App) and c.fn == '.keys':
                 c = c.args[0]
+            if isinstance(c, Fresh) and st.contents.get(c) == () and st.approx == 0:
+                f = FFalse      # nothing has been put into it yet
+                return f if isinstance(op, ast.In) else f_not(f)
             c = self.versioned(st, c)
             f = AIn(a, c)
             return f if isinstance(op, ast.In) else f_not(f)
         if isinstance(op, (ast.Is, ast.IsNot)):
+            for u, w in ((a, b), (b, a)):
+                if isinstance(u, IfT) and (isinstance(w, Const) or self.is_sentinel(w)):
+                    f = f_or(f_and(u.cond, self.cmp(ast.Is(), u.a, w, st)), f_and(f_not(u.cond), self.cmp(ast.Is(), u.b, w, st)))
+                    return f if isinstance(op, ast.Is) else f_not(f)
+            if self.is_sentinel(a) or self.is_sentinel(b):
+                # a private marker is identical to itself only: nothing read from a container or passed in is the marker
+                f = FConst(a == b)
+                return f if isinstance(op, ast.Is) else f_not(f)
             x, y = sorted((a, b), key=lambda t: (not isinstance(t, Const), t.key()))
             f = AIs(y, x) if isinstance(x, Const) else AIs(x, y)
             # identity of two known singletons, or of None and an object allocated here, is decided
@@ -1800,8 +1890,15 @@ class _Ctx:
                 self.emit(st, 'call', e, targets=[], target_kind='builtin', callee_name='builtins.' + b, recv=None,
                           args=tuple(args), kw=kwt, via='func', expr=e, result=r)
             return r
-        # ---- container mutators (receiver is not a package instance defining that method)
+        # ---- d.get(k, MARKER) with a private marker object: the entry when the key is present, the marker otherwise
         name = tgt.name
+        if isinstance(f, ast.Attribute) and name == 'get' and tgt.kind in ('ext', 'unknown') and recv is not None and len(args) == 2 \
+                and not kw and self.is_sentinel(args[1]):
+            r = IfT(AIn(args[0], self.versioned(st, recv)), Sub(recv, args[0]), args[1])
+            self.emit(st, 'call', e, targets=[], target_kind=tgt.kind, callee_name=(tgt.ext or '.get'), recv=recv, args=tuple(args), kw=kwt,
+                      via='', expr=e, result=r)
+            return r
+        # ---- container mutators (receiver is not a package instance defining that method)
         if isinstance(f, ast.Attribute) and name in MUTATORS and tgt.kind in ('ext', 'unknown') and recv is not None:
             is_pandas_drop = name == 'drop'
             if not is_pandas_drop or any(k == 'inplace' and v == Const(True) for k, v in kw.items()):
